@@ -509,6 +509,43 @@ fn main() {
                 }
             }
         }
+        // runs of one and the same divisor / factor / addend (six consecutive operations with it on this thread, the other
+        // operand changing): whatever an operation remembers about its last operand is in use from the second one on
+        {
+            let mut r2 = Rng::new(common::mix(&[seed, 0x5a3e]));
+            for k in 0..(if thorough { 2000 } else { 300 }) {
+                let d = match k % 4 {
+                    0 => 3.0 + (k / 4) as f64 * 2.0,
+                    1 => random_f64(&mut r2),
+                    2 => 0.1 * (1 + k / 4) as f64,
+                    _ => 1.0 / (7.0 + (k / 4) as f64),
+                };
+                let fd = rec.cvt(d);
+                let op = ["div", "mul", "add", "sub", "div=", "div"][k % 6];
+                for j in 0..6 {
+                    let x = if j % 2 == 0 { random_f64(&mut r2) } else { (k * 7 + j) as f64 + 0.5 };
+                    let fx = rec.cvt(x);
+                    let res = rec.bin(op, fx, fd);
+                    if j == 5 {
+                        rec.back(res);
+                    }
+                }
+            }
+            // integer-valued operands around 2^31, 2^32 and the square root of 2^63 / 2^64: products beyond 2^63 that are
+            // still exact in 64 significand bits
+            let ints: [f64; 14] = [2147483647.0, 2147483648.0, 2147483649.0, 4294967295.0, 4294967296.0, 4294967297.0, 3037000499.0, 3037000500.0, 3e9, 4e9, 3999999999.0, 65535.0, 65537.0, 16777217.0];
+            for &a in &ints {
+                for &b in &ints {
+                    for (sa, sb) in [(1.0, 1.0), (-1.0, 1.0), (-1.0, -1.0)] {
+                        let (fa, fb) = (rec.cvt(a * sa), rec.cvt(b * sb));
+                        let pr = rec.bin("mul", fa, fb);
+                        rec.back(pr);
+                        rec.bin("div", pr, fb);
+                        rec.bin("add", pr, fa);
+                    }
+                }
+            }
+        }
         let boundary_events = rec.events;
         // (2) random bit patterns
         let mut rng = Rng::new(common::mix(&[seed, 18]));
